@@ -83,7 +83,7 @@ class Interpolator:
         # These conditions should be checked in the PerformanceTable
         # constructor, but we check them here for security and testing
         # purposes.
-        if len(list(zip(df.fl.values, df.mass.values))) != len(df):
+        if len(set(zip(df.fl.values, df.mass.values))) != len(df):
             raise ValueError('Interpolator requires unique (FL, mass) pairs in data')
 
         # Coordinate values.
@@ -215,7 +215,10 @@ class PerformanceTable:
         assert isinstance(check_neg, pd.DataFrame)
 
         def check_coverage(df, label):
-            if len(df.fl.unique()) * len(df.mass.unique()) != len(df):
+            if (
+                len(df.fl.unique()) * len(df.mass.unique()) != len(df)
+                or df.duplicated(subset=['fl', 'mass']).any()
+            ):
                 raise ValueError(
                     f'Performance data at {label} ROC does not have full coverage'
                 )
